@@ -107,6 +107,21 @@ if not HAS_MATPLOTLIB:
 else:
     import matplotlib.path as mpath
 
+    class _MarkerPath(mpath.Path):
+        """
+        A marker path shared by all regions that use it.
+
+        Copying returns the path itself, so that a region with this
+        marker and its copies compare equal and the marker can still be
+        serialized (paths compare by identity).
+        """
+
+        def __copy__(self):
+            return self
+
+        def __deepcopy__(self, memo=None):
+            return self
+
     vertices = [[0., -1.], [0.2652031, -1.],
                 [0.51957987, -0.89463369], [0.70710678, -0.70710678],
                 [0.89463369, -0.51957987], [1., -0.2652031],
@@ -123,10 +138,10 @@ else:
                 [-1., 1.], [-1., -1.], [0., -1.]]
     codes = [1, 4, 4, 4, 4, 4, 4, 4, 4, 4, 4, 4, 4, 4, 4, 4, 4, 4,
              4, 4, 4, 4, 4, 4, 4, 79, 1, 2, 2, 2, 2, 79]
-    boxcircle = mpath.Path(vertices, codes)
+    boxcircle = _MarkerPath(vertices, codes)
 
     arrow_verts = [[-1, 0], [0, 0], [-1, 1], [0, 0], [0, 1]]
-    arrow = mpath.Path(arrow_verts, codes=None)
+    arrow = _MarkerPath(arrow_verts, codes=None)
 
 
 # mapping from ds9 point symbols to matplotlib marker symbols
